@@ -94,6 +94,12 @@ def run(ctx):
     rule_c(ctx, cr)
     rule_d(ctx, cr)
     rule_e(ctx, cr)
+    ctx.rule("C12.f", "what RUN and CLEAR only rewind must not be changed by the session: the data "
+             "segment is written by the compilation of the stored program alone - a direct-mode "
+             "line cannot add constants to it (see C04.e), so a later RUN reads what a fresh "
+             "interpreter would read")
+    from rules import c04, common
+    c04.rule_e(common.Proxy(ctx, "C12.f"), cr)
 
 
 def rule_a(ctx, cr):
